@@ -14,7 +14,7 @@ def ul_inputs(v):
     return {"line": v["uline"], "indent": max(0, min(ind if isinstance(ind, int) else 1, 5)), "linelen": 72}
 
 
-MONITORS = {"get_splicers": ("m_get_splicers", gs_inputs), "user_line_identity": ("m_user_line", ul_inputs),
+MONITORS = {"_create_splicer": ("m_splicer_emit", gs_inputs), "get_splicers": ("m_get_splicers", gs_inputs), "user_line_identity": ("m_user_line", ul_inputs),
             "user_line_identity_carved": ("m_user_line", ul_inputs), "write_continue_plain": ("m_user_line", lambda v: (
                 {"line": v["line"], "indent": 1, "linelen": 5} if isinstance(v.get("line"), str) else None))}
 
@@ -34,7 +34,7 @@ def run(ctx):
         "ast.listify",
     ]
     if ctx.tier == "thorough":
-        for mon in ("m_get_splicers", "m_user_line"):
+        for mon in ("m_get_splicers", "m_user_line", "m_splicer_emit"):
             r = ctx.monitor(mon, "search", 100000, ctx.seed)
             ctx.bounded.append({"monitor": mon, "kind": "bounded run-time contract on the real function",
                                 "inputs_tried": r["tried"], "distinct": r.get("distinct"), "violation": r["violation"]})
